@@ -251,14 +251,17 @@ PROPS["C10"] = dict(
 )
 PROPS["C11"] = dict(
     level_text="Machine-checked proof (Lean 4): every operation sequence only extends the node table and keeps the invariant, so every earlier handle keeps its function (C11.handles_stable, from the "
-               "refinement theorem of C06/C07); the grounded answer and the complete filter depend only on the Boolean functions of the conditions, hence give the same answer on a fresh object and "
-               "on one with an arbitrary call history (grounded_history_independent, complete_filter_history_independent). Determinism is immediate for the model (pure functions of explicit "
-               "inputs); that the code has no hidden dependence on hash iteration order or entropy is observed. PARTIAL: order-of-emission independence for the two searches across histories is "
-               "checked by the runs only. Tie to the code: random call histories (all semantics, both counting searches, nogood search with 4 heuristics, extra formulas built on the shared store, "
-               "counts) followed by probes on the used object and on a freshly built twin, all compared with the model (handle-exact, so the model tracks the same memo state) and the specification; "
-               "the REAL memo / unique / count / dependency tables are dumped through the add-only hook and audited entry by entry (memoCheck) after each history.",
-    level_note="Trusted: Lean kernel + standard axioms; hook verif_dump_tables (read-only); search-order independence only tested; Rand seeded runs are covered by C05's runs.",
-    technique="Lean 4 proof (append-only store invariant; answers as functions of denotations) + handle-exact correspondence over call histories + audit of the real memo tables",
+               "refinement theorem of C06/C07); every answer depends only on the Boolean functions of the conditions, hence is the same on a fresh object and on one with an arbitrary call history "
+               "(any two well-formed stores whose condition handles denote the same functions): the grounded vector's decided part and the complete filter (grounded_history_independent, "
+               "complete_filter_history_independent), the sets of complete models, of enumerate-and-check stable models, of the counting-guided search under either heuristic and of the nogood search "
+               "under any two heuristics (complete_/stable_/count_search_/ng_search_history_independent, corollaries of the exactness theorems of C02-C05, which hold from ANY well-formed store with ANY "
+               "sound memo contents). Determinism is immediate for the model (pure functions of explicit inputs; Rand's generator state is an explicit input of the scripted shape); that the code "
+               "has no hidden dependence on hash iteration order or entropy is observed. Tie to the code: random call histories (all semantics, both counting searches, nogood search with 4 "
+               "heuristics, extra formulas built on the shared store, counts) followed by probes on the used object and on a freshly built twin, compared with the model (handle-exact, so the model "
+               "tracks the same memo state) and the specification; the REAL memo / unique / count / dependency tables are dumped through the add-only hook and audited entry by entry after each history.",
+    level_note="Trusted: Lean kernel + standard axioms; hook verif_dump_tables (read-only); memoCheck is executable specification (not a theorem); the order in which the searches emit models after "
+               "different histories is not claimed by the property (compared with the model on explored histories only); seeded Rand runs are covered by C05's runs.",
+    technique="Lean 4 proof (append-only store invariant; answers as functions of denotations, via the exactness theorems) + handle-exact correspondence over call histories + audit of the real memo tables",
     jobs=[Job("adf", 500, 20000, size=5, size_thorough=6, extra=("hist",), relevant=None, nontrivial=nt_adf)],
     rule=ADF_GEN + "2-10 random API calls on one object (native, hybrid or pre-grounded), then six probe calls on it and on a fresh twin; memoCheck of the real tables; non-trivial = distinct history on an ADF with >= 2 statements and >= 5 nodes",
     assumptions=["well-formed ADFs"],
